@@ -62,6 +62,11 @@ func (e *Exec) call(fr *Frame, st *State, ins ssa.Instruction, cc *ssa.CallCommo
 	if callee.Pkg == nil && callee.Origin() != nil {
 		name = callee.Origin().String()
 	}
+	if strings.HasPrefix(callee.Name(), "_Cfunc_") || strings.HasPrefix(callee.Name(), "_Cmacro_") {
+		// cgo stub: the C side writes the results through a pointer to the argument frame, which the SSA body does
+		// not show - the call is opaque
+		return e.unknownCall(fr, st, ins, "cgo call "+callee.Name(), rtyp, args)
+	}
 	switch name {
 	case "sort.Slice", "sort.SliceStable", "slices.SortFunc", "slices.SortStableFunc":
 		if e.pure == 0 {
